@@ -3,6 +3,8 @@ CONSTANTS
   MaxEpoch = 3
   MaxLeaves = 8
   Export = FALSE
+  MaxU = 3
+  MaxI = 2
   PrevEpochChecked = TRUE
   ChildPrefixChecked = TRUE
   PrefixFreeChecked = TRUE
